@@ -17,7 +17,7 @@ ENTRIES = ["conelp", "coneqp", "lp", "qp", "socp", "sdp", "cpl", "cp", "gp", "op
 REQUIRED_COUNTERS = ["iso." + e for e in ENTRIES] + ["immutability-checks", "global-state-checks", "options-precedence-checks",
                                                       "validation-rejections", "budget-checks", "monotone-tolerance-checks",
                                                       "hist.calls-vs-fresh-process", "threads.runs", "threads.results-compared",
-                                                      "threads.context-switches-in-solver", "threads.homogeneous-runs"]
+                                                      "threads.context-switches-in-solver", "threads.homogeneous-runs", "iso.empty-options-dict"]
 
 
 def plan(tier):
@@ -35,6 +35,10 @@ def run(ctx):
     import numpy as np
     import cvxopt
     from cvxopt import matrix, spmatrix, solvers, misc, coneprog, cvxprog, modeling
+    try:
+        from cvxopt import glpk, dsdp       # noqa: imported now, so that the first back-end call does not change the package namespace
+    except ImportError:
+        pass
     from vlib.oracle import cone
     from vlib.oracle.cone import Dims
     from vlib.gen import coneprob as gp, nlprob as nl
@@ -89,6 +93,10 @@ def run(ctx):
                 if rng.random() < 0.3 and self.pr.kind == "feasible":
                     ps, ds, _, _ = sr.start_dicts(e, self.pr, rng.choice(["primal", "dual", "both"]), rng)
                     self.kw["ps"], self.kw["ds"] = ps, ds
+                elif e == "lp" and rng.random() < 0.3:
+                    self.kw["solver"] = "glpk"          # the external back-ends have their own post-processing code
+                elif e == "sdp" and self.pr.p == 0 and rng.random() < 0.3:
+                    self.kw["solver"] = "dsdp"
             elif e in ("coneqp", "qp"):
                 self.pr = None
                 while self.pr is None:
@@ -141,6 +149,9 @@ def run(ctx):
                 kw["options"] = options
             if kkt is not None:
                 kw["kktsolver"] = kkt
+            if self.kw.get("solver"):
+                kw["solver"] = self.kw["solver"]
+                ctx.count("backend." + self.kw["solver"])
             if e == "conelp":
                 return solvers.conelp(a["c"], a["G"], a["h"], a["dims"], a["A"], a["b"], primalstart=self.kw.get("ps"),
                                       dualstart=self.kw.get("ds"), **kw)
@@ -201,7 +212,11 @@ def run(ctx):
         ctx.count("iso." + entry)
         opts = rand_options(rng)
         kk_ = None
-        if rng.random() < 0.25 and entry != "op":
+        if rng.random() < 0.1:
+            # an EMPTY per-call dictionary is still the caller's choice ("use the defaults"), not "use the globals"
+            opts = {}
+            ctx.count("iso.empty-options-dict")
+        elif rng.random() < 0.25 and entry != "op":
             # the (undocumented but validated) regularisation option of the 'ldl' KKT solver must follow options= too
             opts["kktreg"] = rng.choice([1e-8, 1e-6]); kk_ = "ldl"
         # --- immutability + global state, options= kwarg, poisoned globals
@@ -238,7 +253,9 @@ def run(ctx):
             bad[name] = val
         applicable = not (name == "kktreg" and entry in ("gp",))
         im0 = call.images()
-        rb = run_frozen(Call(entry, seed), options=bad)
+        cb = Call(entry, seed)
+        cb.kw.pop("solver", None)         # the native options are validated by the native solvers (GLPK/DSDP have their own)
+        rb = run_frozen(cb, options=bad)
         okv = rb[0] == "exc" and rb[1] == "ValueError"
         if okv: ctx.count("validation-rejections")
         c.require(okv, entry + ":invalid-option-not-ValueError:" + name, "options %r: expected ValueError, got %r" % ({name: val}, rb[:3] if rb[0] == "exc" else status_of(rb)))
